@@ -624,7 +624,7 @@ def exhaustive_cases(maxlen, types):
 def gen(rng, tier):
     cases = []
     quick = tier == "quick"
-    nsmall, nmed, nlarge = (1000, 320, 90) if quick else (40000, 12000, 2500)
+    nsmall, nmed, nlarge = (1000, 320, 90) if quick else (30000, 9000, 1200)
     kinds = ["ia", "sa", "ca", "ca", "sa", "ik", "sk", "ck", "iq", "sq", "cq"]
     for i in range(nsmall):
         p = kinds[i % len(kinds)]
